@@ -1,5 +1,142 @@
-import Pithos.Model.S3
+/-
+C01 — acknowledged object writes are read back exactly.
+
+Theorems about the storage model `Pithos.S3` (tied to /repo by the differential harness `s3h`).
+They hold for every setting `q` of the quirk switches, i.e. both for the code as it is
+(`Quirks.code`) and for the reference behaviour, in every state satisfying the row invariant
+`Inv` — and `reachable_inv` shows that is every state reachable by any finite history.
+-/
+import Pithos.Lemmas.S3Read
+
 namespace Pithos.C01
 open Pithos.S3
-theorem placeholder_run_nil (q : Quirks) (s : State) : (run q s []).2 = [] := rfl
+
+/-- Every state reachable from the empty storage by any finite operation sequence satisfies the
+row invariant (distinct row ids below the counter; at most one `latest` row per key). -/
+theorem reachable_inv (q : Quirks) (ops : List Op) : Inv (run q {} ops).1 := by
+  have gen : ∀ (s : State), Inv s → Inv (run q s ops).1 := by
+    induction ops with
+    | nil => intro s h; exact h
+    | cons op ops ih =>
+      intro s h
+      have := ih (step q s op).1 (step_inv q s op h)
+      simpa [run] using this
+  exact gen {} (by intro bk hbk; cases hbk)
+
+/-- Shape of an acknowledged PutObject. -/
+theorem put_ack {q : Quirks} {s s1 : State} {b k : String} {body : Bytes} {o : WriteOpts} {inm : Bool} {im : IfMatch}
+    {vid : Option Nat} {e : ETag} (h : step q s (.put b k body o inm im) = (s1, .wrote vid e)) :
+    ∃ bk, findBucket { s with clock := s.clock + 1 } b = some bk ∧
+      putRow q { s with clock := s.clock + 1 } bk k { parts := [body], etag := singleETag body, o := o } inm im = .ok (s1, vid) := by
+  simp only [step, stepT] at h
+  cases hfb : findBucket { s with clock := s.clock + 1 } b with
+  | none => simp [hfb] at h
+  | some bk =>
+    simp only [hfb] at h
+    cases hp : putRow q { s with clock := s.clock + 1 } bk k { parts := [body], etag := singleETag body, o := o } inm im with
+    | error err => simp [hp] at h
+    | ok x =>
+      simp only [hp] at h
+      obtain ⟨s', v'⟩ := x
+      simp only [Prod.mk.injEq, Out.wrote.injEq] at h
+      obtain ⟨h1, h2, _⟩ := h
+      exact ⟨bk, rfl, by rw [hp, h1, h2]⟩
+
+/-- **read_after_put.** In every state satisfying the invariant (hence in every reachable state),
+an acknowledged PutObject of `body` with content type `o.ct` is read back by the next
+GetObject/HeadObject of that key exactly: same bytes, same size, same content type. Bodies are
+arbitrary byte lists — empty and arbitrarily large included. -/
+theorem read_after_put (q : Quirks) (s s1 : State) (hinv : Inv s) (b k : String) (body : Bytes) (o : WriteOpts)
+    (inm : Bool) (im : IfMatch) (vid : Option Nat) (e : ETag)
+    (hack : step q s (.put b k body o inm im) = (s1, .wrote vid e)) :
+    ∃ v, (step q s1 (.get b k none)).2 = .obj v ∧ (step q s1 (.head b k none)).2 = .obj v ∧
+      v.body = body ∧ v.size = body.length ∧ v.ct = o.ct ∧ v.vid = vid := by
+  obtain ⟨bk, hfb, hp⟩ := put_ack hack
+  obtain ⟨bk', row, hfb', hl, _, hdm, hparts, _, hct, _, _, _, hvid, _⟩ :=
+    putRow_current (h := inv_tick hinv) hfb hp
+  obtain ⟨hg, hh⟩ := get_current (q := q) hfb' hl hdm
+  refine ⟨viewOf row, hg, hh, ?_, ?_, ?_, ?_⟩
+  · simp [viewOf, Row.content, hparts]
+  · simp [viewOf, Row.size, Row.content, hparts]
+  · simp [viewOf, hct]
+  · simp [viewOf, hvid]
+
+/-- For every history: the state it reaches reads back the next acknowledged put. -/
+theorem read_after_put_reachable (q : Quirks) (ops : List Op) (b k : String) (body : Bytes) (o : WriteOpts)
+    (inm : Bool) (im : IfMatch) (s1 : State) (vid : Option Nat) (e : ETag)
+    (hack : step q (run q {} ops).1 (.put b k body o inm im) = (s1, .wrote vid e)) :
+    ∃ v, (step q s1 (.get b k none)).2 = .obj v ∧ v.body = body ∧ v.size = body.length ∧ v.ct = o.ct := by
+  obtain ⟨v, hg, _, h1, h2, h3, _⟩ := read_after_put q _ s1 (reachable_inv q ops) b k body o inm im vid e hack
+  exact ⟨v, hg, h1, h2, h3⟩
+
+/-- NoSuchBucket exactly when the bucket is absent. -/
+theorem get_nosuchbucket_iff (q : Quirks) (s : State) (b k : String) :
+    (step q s (.get b k none)).2 = .err .noSuchBucket ↔ findBucket s b = none := by
+  have hfb : findBucket { s with clock := s.clock + 1 } b = findBucket s b := rfl
+  simp only [step, stepT, hfb]
+  cases hf : findBucket s b with
+  | none => simp
+  | some bk =>
+    simp only []
+    cases hr : resolve bk k none with
+    | error e =>
+      simp only [resolve] at hr
+      cases hl : latestRow bk k with
+      | none => simp [hl] at hr; subst hr; simp
+      | some r =>
+        simp only [hl] at hr
+        by_cases hd : r.dm = true
+        · simp [hd] at hr; subst hr; simp
+        · simp [hd] at hr
+    | ok r => simp
+
+/-- NoSuchKey exactly when the bucket exists and the key has no current version that is an object
+(no row flagged latest, or the latest row is a delete marker). -/
+theorem get_nosuchkey_iff (q : Quirks) (s : State) (b k : String) :
+    (step q s (.get b k none)).2 = .err .noSuchKey ↔
+      ∃ bk, findBucket s b = some bk ∧ (latestRow bk k = none ∨ ∃ r, latestRow bk k = some r ∧ r.dm = true) := by
+  have hfb : findBucket { s with clock := s.clock + 1 } b = findBucket s b := rfl
+  simp only [step, stepT, hfb]
+  cases hf : findBucket s b with
+  | none => simp
+  | some bk =>
+    simp only [resolve]
+    cases hl : latestRow bk k with
+    | none => simp [hl]
+    | some r =>
+      by_cases hd : r.dm = true
+      · simp [hd, hl]
+      · simp [hd, hl]
+
+/-- **delete_bucket_ok_iff_empty.** DeleteBucket succeeds exactly for an existing bucket holding no
+object rows at all (no versions, no delete markers) and no pending uploads. -/
+theorem delete_bucket_ok_iff_empty (q : Quirks) (s : State) (b : String) :
+    (step q s (.rmb b)).2 = .unit ↔ ∃ bk, findBucket s b = some bk ∧ bk.rows = [] ∧ bk.uploads = [] := by
+  have hfb : findBucket { s with clock := s.clock + 1 } b = findBucket s b := rfl
+  simp only [step, stepT, hfb]
+  cases hf : findBucket s b with
+  | none => simp
+  | some bk =>
+    simp only []
+    by_cases hr : bk.rows = []
+    · by_cases hu : bk.uploads = []
+      · simp [hr, hu]
+      · simp [hr, hu]
+    · simp [hr]
+
+/-- Reads do not change the stored buckets (so interleaved reads never disturb a later read). -/
+theorem reads_preserve_buckets (q : Quirks) (s : State) (b k : String) (vid : Option (Option Nat)) :
+    (step q s (.get b k vid)).1.buckets = s.buckets ∧ (step q s (.head b k vid)).1.buckets = s.buckets := by
+  constructor <;>
+  · simp only [step, stepT]
+    cases findBucket { s with clock := s.clock + 1 } b with
+    | none => rfl
+    | some bk => simp only []; cases resolve bk k vid <;> rfl
+
+/-- Non-vacuity: a concrete history (create bucket, put an empty object, overwrite it) reaches a state
+from which the hypotheses of `read_after_put` are met and the read returns the bytes. -/
+example : (step Quirks.code (run Quirks.code {} [.mkb "b", .put "b" "k" [] {} false .none]).1
+    (.put "b" "k" [1, 2, 3] { ct := some "text/plain" } false .none)).2 = .wrote none (singleETag [1, 2, 3]) := by
+  decide
+
 end Pithos.C01
